@@ -130,9 +130,11 @@ Arguments pi_data {S}. Arguments last_start {S}. Arguments cref {S}. Arguments l
     last_start; cref; line; exact>.
 
 (* machine = configuration + input queue + tokens delivered so far (newest first, with line) *)
-Record mach (S : Type) := mkmach { mc : cfg S; mq : queue; mout : list (token * N) }.
-Arguments mkmach {S}. Arguments mc {S}. Arguments mq {S}. Arguments mout {S}.
-#[export] Instance eta_mach {S} : Settable (mach S) := settable! (@mkmach S) <mc; mq; mout>.
+(* [mcons] is a ghost counter (never read by the semantics): characters taken from the input stream so far,
+   minus characters put back (look-ahead stash re-inserted, character-reference un-consumption) *)
+Record mach (S : Type) := mkmach { mc : cfg S; mq : queue; mout : list (token * N * N); mcons : N }.
+Arguments mkmach {S}. Arguments mc {S}. Arguments mq {S}. Arguments mout {S}. Arguments mcons {S}.
+#[export] Instance eta_mach {S} : Settable (mach S) := settable! (@mkmach S) <mc; mq; mout; mcons>.
 
 (* what distinguishes the two tokenizers outside their tables *)
 Record flavour (S : Type) := {
@@ -156,7 +158,11 @@ Variable sk : sinkcfg.
 Notation M := (mach S).
 
 Definition upd (f : cfg S -> cfg S) (m : M) : M := m <| mc ::= f |>.
-Definition emit (t : token) (m : M) : M := m <| mout ::= cons (t, line (mc m)) |>.
+Definition emit (t : token) (m : M) : M := m <| mout ::= cons (t, line (mc m), mcons m) |>.
+Definition took (n : N) (m : M) : M := m <| mcons ::= N.add n |>.
+Definition gave (n : N) (m : M) : M := m <| mcons ::= (fun k => k - n) |>.
+Definition lenN (l : list N) : N := N.of_nat (length l).
+Definition unconsume (b : list N) (m : M) : M := gave (lenN b) (m <| mq ::= qpush_front b |>).
 Definition err (m : M) : M := emit TError m.
 
 (* ---- input primitives *)
@@ -168,7 +174,7 @@ Definition get_preprocessed_char (c : N) (m : M) : option N * M :=
       if c =? LF then
         match qnext (mq m1) with
         | None => (None, m1)
-        | Some (c', q') => (Some c', m1 <| mq := q' |>)
+        | Some (c', q') => (Some c', took 1 (m1 <| mq := q' |>))
         end
       else (Some c, m1)
     else (Some c, m) in
@@ -186,7 +192,7 @@ Definition get_char (m : M) : option N * M :=
   if reconsume (mc m) then (Some (cur (mc m)), upd (fun x => x <| reconsume := false |>) m)
   else match qnext (mq m) with
        | None => (None, m)
-       | Some (c, q') => get_preprocessed_char c (m <| mq := q' |>)
+       | Some (c, q') => get_preprocessed_char c (took 1 (m <| mq := q' |>))
        end.
 
 Definition peek (m : M) : option N :=
@@ -196,8 +202,17 @@ Definition peek (m : M) : option N :=
 Definition discard_char (m : M) : M :=
   if f_html fl then
     if reconsume (mc m) then upd (fun x => x <| reconsume := false |>) m
-    else match qnext (mq m) with Some (_, q') => m <| mq := q' |> | None => m end
+    else match qnext (mq m) with
+         | Some (_, q') => upd (fun x => x <| ignore_lf := false |>) (took 1 (m <| mq := q' |>))
+         | None => upd (fun x => x <| ignore_lf := false |>) m
+         end
   else snd (get_char m).
+
+(* html discard_whitespace_char(input, c): a peeked whitespace character is dropped raw, line breaks counted here *)
+Definition discard_ws (c : N) (m : M) : M :=
+  let after_cr := ignore_lf (mc m) in
+  let m1 := upd (fun x => x <| ignore_lf := (c =? CR) |>) (discard_char m) in
+  if (c =? CR) || ((c =? LF) && negb after_cr) then upd (fun x => x <| line ::= N.add 1 |>) m1 else m1.
 
 Inductive popres := PopNone | PopChar (c : N) | PopRun (r : list N).
 
@@ -213,34 +228,43 @@ Definition pop_except_from (set : list N) (use_simd : bool) (m : M) : popres * M
       if use_simd && negb (memb c0 guard) then
         (* data_state_simd_fast_path: scan to the first stop byte, count newlines *)
         let '(r, s) := span_stop stop buf in
-        (PopRun r, upd (fun x => x <| line ::= N.add (count_in r nl) |>) (m <| mq := qpush_front s t |>))
+        (PopRun r, took (lenN r) (upd (fun x => x <| line ::= N.add (count_in r nl) |>) (m <| mq := qpush_front s t |>)))
       else
         let '(r, s) := span_out set buf in
         match r with
         | [] =>
           match s with
-          | c :: s' => match get_preprocessed_char c (m <| mq := qpush_front s' t |>) with
+          | c :: s' => match get_preprocessed_char c (took 1 (m <| mq := qpush_front s' t |>)) with
                        | (None, m') => (PopNone, m') | (Some c', m') => (PopChar c', m') end
           | [] => (PopNone, m)
           end
-        | _ => (PopRun r, m <| mq := qpush_front s t |>)
+        | _ => (PopRun r, took (lenN r) (m <| mq := qpush_front s t |>))
         end
     end.
 
-Definition eat (pat : str) (exact_cmp : bool) (m : M) : option bool * M :=
-  let m1 :=
-    if f_html fl && ignore_lf (mc m) then
-      let m' := upd (fun x => x <| ignore_lf := false |>) m in
-      if match peek m' with Some c => c =? LF | None => false end then discard_char m' else m'
-    else m in
-  let m2 := upd (fun x => x <| temp_buf := [] |>) (m1 <| mq := qpush_front (temp_buf (mc m1)) (mq m1) |>) in
+Definition eat_body (pat : str) (exact_cmp : bool) (m1 : M) : option bool * M :=
+  let m2 := upd (fun x => x <| temp_buf := [] |>) (unconsume (temp_buf (mc m1)) m1) in
   match qeat (negb exact_cmp) pat (mq m2) with
-  | EatTrue => (Some true, m2 <| mq := qdrop (length pat) (mq m2) |>)
+  | EatTrue => (Some true, took (lenN pat) (m2 <| mq := qdrop (length pat) (mq m2) |>))
   | EatFalse => (Some false, m2)
   | EatNone =>
     if at_eof (mc m2) then (Some false, m2)
-    else (None, upd (fun x => x <| temp_buf := qflat (mq m2) |>) (m2 <| mq := [] |>))
+    else (None, took (lenN (qflat (mq m2))) (upd (fun x => x <| temp_buf := qflat (mq m2) |>) (m2 <| mq := [] |>)))
   end.
+
+Definition eat (pat : str) (exact_cmp : bool) (m : M) : option bool * M :=
+  if ignore_lf (mc m) then
+    (* the line feed of a CR LF pair may only arrive with the next chunk *)
+    match peek m with
+    | None => if at_eof (mc m) then eat_body pat exact_cmp (upd (fun x => x <| ignore_lf := false |>) m) else (None, m)
+    | Some c =>
+      let m' := if c =? LF then
+                  (if f_html fl then discard_char m
+                   else match qnext (mq m) with Some (_, q') => took 1 (m <| mq := q' |>) | None => m end)
+                else m in
+      eat_body pat exact_cmp (upd (fun x => x <| ignore_lf := false |>) m')
+    end
+  else eat_body pat exact_cmp m.
 
 (* ---- attributes and tags *)
 (* xml5ever qname.rs: index of the prefix colon, if the name has exactly the shape p:l *)
@@ -309,9 +333,11 @@ Definition emit_current_tag (m : M) : M * sres :=
              end in
     let m := emit (TTag (tag_kind c) name (tag_self c) (tag_attrs c) (tag_dup c)) m in
     let m := upd (fun x => x <| tag_attrs := [] |>) m in
+    (* the scripted sink: Plaintext / RawData / EncodingIndicator answers on start tags, Script on END tags
+       (as the tree builder does for </script>) *)
     match tag_kind c, lookup_resp name (sk_resp sk) with
     | TStartTag, Some RespPlaintext => (upd (fun x => x <| st := f_plaintext fl |>) m, SContinue)
-    | TStartTag, Some RespScript => (upd (fun x => x <| st := f_data fl |>) m, SScript)
+    | TEndTag, Some RespScript => (upd (fun x => x <| st := f_data fl |>) m, SScript)
     | TStartTag, Some (RespRawData k) => (upd (fun x => x <| st := f_rawdata fl k |>) m, SContinue)
     | TStartTag, Some RespEncoding => (m, SEncoding)
     | _, _ => (m, SContinue)
@@ -323,9 +349,9 @@ Definition emit_current_tag (m : M) : M * sres :=
              end in
     let m := emit (TTag (tag_kind c) name false (tag_attrs c) false) m in
     let m := upd (fun x => x <| tag_attrs := [] |>) m in
-    match lookup_resp name (sk_resp sk) with
-    | Some RespScript => (m, SScript)
-    | _ => (m, SContinue)
+    match tag_kind c, lookup_resp name (sk_resp sk) with
+    | TEndTag, Some RespScript => (m, SScript)
+    | _, _ => (m, SContinue)
     end.
 
 (* ---- commands *)
@@ -345,6 +371,7 @@ Definition do_cmd (k : cmd) (c : N) (run : list N) (m : M) : M :=
   | PushTag e => upd (fun x => x <| tag_name ::= (fun s => s ++ [ceval e c]) |>) m
   | DiscardTag => discard_tag m
   | DiscardChar => discard_char m
+  | DiscardWs => discard_ws c m
   | PushTemp e => upd (fun x => x <| temp_buf ::= (fun s => s ++ [ceval e c]) |>) m
   | ClearTemp => upd (fun x => x <| temp_buf := [] |>) m
   | CreateAttr e => upd (fun x => x <| attr_name ::= (fun s => s ++ [ceval e c]) |>) (finish_attribute m)
@@ -457,8 +484,11 @@ Inductive crres := CrStuck | CrProgress (cr : crt) | CrDone (chars : list N).
 
 Definition unconsume_numeric (cr : crt) (m : M) : crres * M :=
   let u := 35 :: match cr_hex cr with Some c => [c] | None => [] end in
-  (CrDone [], err (m <| mq ::= qpush_front u |>)).
+  (CrDone [], err (unconsume u m)).
 
+(* NB on the ghost counter: the name buffer is look-ahead, so for [mcons] the un-consumption is accounted for
+   BEFORE the parse error is emitted (the Rust code emits first and pushes back second; the two commute for
+   everything except the ghost) *)
 Definition finish_named (cr : crt) (end_char : option N) (m : M) : crres * M :=
   match cr_match cr with
   | None =>
@@ -466,9 +496,9 @@ Definition finish_named (cr : crt) (end_char : option N) (m : M) : crres * M :=
     | Some c =>
       if is_alnum c then (CrProgress (cr <| cr_st := CrBogus |>), m)
       else
-        let m1 := if (c =? 59) && Nat.ltb 1 (length (cr_buf cr)) then err m else m in
-        (CrDone [], m1 <| mq ::= qpush_front (cr_buf cr) |>)
-    | None => (CrDone [], m <| mq ::= qpush_front (cr_buf cr) |>)
+        let m0 := unconsume (cr_buf cr) m in
+        (CrDone [], if (c =? 59) && Nat.ltb 1 (length (cr_buf cr)) then err m0 else m0)
+    | None => (CrDone [], unconsume (cr_buf cr) m)
     end
   | Some (c1', c2') =>
     let nl := cr_len cr in
@@ -483,18 +513,24 @@ Definition finish_named (cr : crt) (end_char : option N) (m : M) : crres * M :=
                              else if is_alnum c then (true, false) else (false, true)
            | _, _ => (false, true)
            end in
-    let m1 := if e then err m else m in
-    if unc then (CrDone [], m1 <| mq ::= qpush_front (cr_buf cr) |>)
+    if unc then
+      let m0 := unconsume (cr_buf cr) m in
+      (CrDone [], if e then err m0 else m0)
     else
-      let m2 := m1 <| mq ::= qpush_front (skipn nl (cr_buf cr)) |> in
-      let m3 := if f_html fl then upd (fun x => x <| ignore_lf := false |>) m2 else m2 in
+      let m0 := unconsume (skipn nl (cr_buf cr)) m in
+      let m1 := if e then err m0 else m0 in
+      let m3 := if f_html fl then upd (fun x => x <| ignore_lf := false |>) m1 else m1 in
       (CrDone (c1' :: (if c2' =? 0 then [] else [c2'])), m3)
   end.
 
-(* the named / bogus-name read: html peeks and discards RAW characters, xml reads through get_char *)
+(* the named / bogus-name read: peek + RAW discard (no newline normalisation), so that what is un-consumed
+   later is exactly what was read.  xml: XmlTokenizer::discard_raw_char *)
+Definition discard_raw (m : M) : M :=
+  if f_html fl then discard_char m
+  else if reconsume (mc m) then upd (fun x => x <| reconsume := false |>) m
+  else match qnext (mq m) with Some (_, q') => took 1 (m <| mq := q' |>) | None => m end.
 Definition cr_read (m : M) : option N * M :=
-  if f_html fl then match peek m with None => (None, m) | Some c => (Some c, discard_char m) end
-  else get_char m.
+  match peek m with None => (None, m) | Some c => (Some c, discard_raw m) end.
 
 Definition cr_step (cr : crt) (m : M) : crres * M :=
   match cr_st cr with
@@ -560,8 +596,8 @@ Definition cr_step (cr : crt) (m : M) : crres * M :=
       let cr1 := cr <| cr_buf ::= (fun b => b ++ [c]) |> in
       if is_alnum c then (CrProgress cr1, m1)
       else
-        let m2 := if c =? 59 then err m1 else m1 in
-        (CrDone [], m2 <| mq ::= qpush_front (cr_buf cr1) |>)
+        let m2 := unconsume (cr_buf cr1) m1 in
+        (CrDone [], if c =? 59 then err m2 else m2)
     end
   end.
 
@@ -577,8 +613,8 @@ Definition cr_eof (cr : crt) (m : M) : list N * M :=
     | (CrDone chars, m') => (chars, m')
     | (_, m') => ([], m')
     end
-  | CrBogus => ([], m <| mq ::= qpush_front (cr_buf cr) |>)
-  | CrOcto => ([], err (m <| mq ::= qpush_front [35] |>))
+  | CrBogus => ([], unconsume (cr_buf cr) m)
+  | CrOcto => ([], err (unconsume [35] m))
   end.
 
 (* ---- step / run / feed / end *)
@@ -612,7 +648,9 @@ Definition feed (fuel : nat) (m : M) : M * sres :=
   | _ =>
     let m1 := if discard_bom (mc m) then
                 match qpeek (mq m) with
-                | Some c => if c =? BOM then match qnext (mq m) with Some (_, q') => m <| mq := q' |> | None => m end else m
+                | Some c =>
+                  let m' := if c =? BOM then match qnext (mq m) with Some (_, q') => took 1 (m <| mq := q' |>) | None => m end else m in
+                  upd (fun x => x <| discard_bom := false |>) m'     (* only the first character of the stream *)
                 | None => m
                 end
               else m in
